@@ -71,7 +71,7 @@ def cons_json(kind, c):
   return [one(t) for t in c]
 
 
-def gen_case(rng, name, with_unknown):
+def gen_case(rng, name, with_unknown, single_class=False):
   base, kind = SUP[name]
   d = int(rng.integers(2, 5))
   ncls = int(rng.integers(2, 4))
@@ -91,7 +91,7 @@ def gen_case(rng, name, with_unknown):
       # "negative" is the documented marker of an unlabeled point, not only -1: several different negative values
       u = np.flatnonzero(y < 0)
       y[u] = rng.choice([-1, -2, -3, -9], size=len(u))
-  if name in ('ITML_Supervised', 'SDML_Supervised') and rng.random() < 0.2:
+  if name in ('ITML_Supervised', 'SDML_Supervised') and (single_class or rng.random() < 0.2):
     # a label vector is a label vector: all labeled points in ONE class (only similar pairs can be derived)
     y = np.where(y >= 0, int(rng.integers(0, 5)), y)
     ncls = 1
@@ -216,7 +216,7 @@ def gen_case(rng, name, with_unknown):
 
 def gen_trace(recipe):
   rng = np.random.default_rng(recipe['seed'])
-  return {'est': recipe['est'], 'events': [gen_case(rng, recipe['est'], recipe['unknown']) for _ in range(recipe['n'])]}
+  return {'est': recipe['est'], 'events': [gen_case(rng, recipe['est'], recipe['unknown'], bool(recipe.get('single_class'))) for _ in range(recipe['n'])]}
 
 
 def signature_of(recipe, tr, clause, pos):
@@ -236,6 +236,10 @@ def run(ctx):
     for unknown in (False, True):
       for k in range(2 if ctx.quick else 4):
         rs.append(dict(est=name, unknown=unknown, n=per, seed=int(rng.integers(1 << 30))))
+  # directed: label vectors whose labeled points all belong to ONE class (only similar pairs can be derived)
+  for name in ('ITML_Supervised', 'SDML_Supervised'):
+    for unknown in (False, True):
+      rs.append(dict(est=name, unknown=unknown, single_class=True, n=3 if ctx.quick else 20, seed=int(rng.integers(1 << 30))))
   ctx.rule = ('6 supervised classes x {no unknown labels, unknown (-1) labels at arbitrary positions incl. the first rows} x '
               'random n_constraints (incl. the default 20*n_classes^2 without unknown labels) / n_chunks / chunk_size / '
               'k_genuine / k_impostor / priors / SCML basis in {triplet_diffs, array, lda} x integer seeds; %d cases per '
